@@ -13,7 +13,7 @@ MANIFEST = dict(
     technique="Lean 4 proof on a timed model + acceptance of real-time traces by a proved acceptor",
     ref='5/C16')
 
-OPS = ['Delay', 'DelayEach', 'Timeout', 'Interval', 'IntervalWithInitial', 'Timer', 'RangeWithInterval', 'RangeWithStepAndInterval',
+OPS = ['Delay', 'DelayEach', 'Timeout', 'Interval', 'IntervalWithInitial', 'Timer', 'RangeWithInterval', 'RangeWithStepAndInterval', 'RepeatWithInterval',
        'ThrottleTime', 'SampleTime', 'BufferWithTime', 'BufferWithTimeOrCount']
 
 
